@@ -13,14 +13,15 @@ import (
 // logical rows (C04) or refuse the file (C18).
 
 type foreignCol struct {
-	Codec   string  `json:"codec"`
-	Literal bool    `json:"literal"`
-	Variant int     `json:"variant"`
-	Pages   [][]int `json:"pages"` // per row group: records per page
-	Seg     string  `json:"seg"`   // greedy | rle1 | bp | bp8 | rand
-	Pad     int     `json:"pad"`
-	Stats   bool    `json:"stats"`
-	Extras  bool    `json:"extras"`
+	Codec    string  `json:"codec"`
+	Literal  bool    `json:"literal"`
+	Variant  int     `json:"variant"`
+	Pages    [][]int `json:"pages"` // per row group: records per page
+	Seg      string  `json:"seg"`   // greedy | rle1 | bp | bp8 | rand
+	Pad      int     `json:"pad"`
+	Stats    bool    `json:"stats"`
+	Extras   bool    `json:"extras"`
+	AbsentBP bool    `json:"absentbp"` // absent level streams labelled BIT_PACKED (parquet-mr)
 }
 
 type foreignSpec struct {
@@ -202,7 +203,7 @@ func runForeign(c jobCase) {
 					stripeNode(lps[ci].chain, lps[ci].idx, kids[lps[ci].idx[0]], 0, 0, 0, &es)
 				}
 				ri += cnt
-				p := pq.PageSpec{Pad: uint8(fc.Pad), Stats: fc.Stats, Extras: fc.Extras && pi%2 == 0} // optional header fields (crc ...) on every other page only
+				p := pq.PageSpec{Pad: uint8(fc.Pad), Stats: fc.Stats, Extras: fc.Extras && pi%2 == 0, AbsentBP: fc.AbsentBP} // optional header fields (crc ...) on every other page only
 				for _, e := range es {
 					colEntries[ci] = append(colEntries[ci], []int{e.r, e.d, e.tok})
 					p.Reps = append(p.Reps, uint8(e.r))
